@@ -114,6 +114,7 @@ class ShadowStore:
         self.held = {}             # id(item) -> ItemRec
         self.returned = set()      # id(item) of items already handed out (kept alive in log)
         self.keepalive = []
+        self.mech_suffix = ""      # input class tag appended to every mechanism of this store (e.g. ":value-equal-items")
         self.forget_items = False  # E1 forgetful histories: an item that has left the store is not kept alive by the monitor, so its
                                    # address can be handed to a later item (bookkeeping keyed by id(item) must be cleaned on every path)
         self.freed_item_addrs = set()
@@ -189,7 +190,7 @@ class ShadowStore:
         return self.mon.env.now
 
     def viol(self, prop, check, mech, detail):
-        self.mon.violation(prop, check, mech, detail, store=self)
+        self.mon.violation(prop, check, mech + self.mech_suffix, detail, store=self)
 
     def _occ_update(self):
         now = self.now()
